@@ -6,6 +6,7 @@
 use vstd::prelude::*;
 use vstd::std_specs::convert::*;
 use vstd::std_specs::iter::IteratorSpec;
+use std::sync::Arc;
 verus! {
 
 //@ include inc/bytes_order.rs
@@ -159,6 +160,158 @@ fn canary_encode_lp_pre<K: Encode>(x: &Impl, key: &K, buffer: &mut Vec<u8>)
     x.encode_value_length_prefixed(key, buffer);
     assert(false);
 }
+
+
+// ================================================================ the operations layer: which backend operation each
+// trait method issues, on which column family, with which key / value bytes -- on the direct path (WriteBatch) and on the
+// recorded path (SerializationBuffer -> consume_serialization_buffer), which must agree with each other and with the readers
+//@ enum crates/storage/src/kv_database/rocksdb.rs :: ColumnKind
+#[derive(Clone, Copy, PartialEq, Eq, Structural)]
+//@ end
+
+/// the key under which (column W, value type C, key k) lives
+pub open spec fn wide_key<W: WideColumn, C: WideColumnValue<W>>(k: &W::Key) -> Seq<u8> {
+    if W::enc() == DiscriminantEncoding::Prefixed { C::disc().bytes() + k.bytes() } else { k.bytes() + C::disc().bytes() }
+}
+/// the key under which member e of the set of k lives
+pub open spec fn member_key<C: KeyOfSetColumn>(k: &C::Key, e: &C::Element) -> Seq<u8> { lp(k.bytes()) + e.bytes() }
+
+
+//@ include inc/c11_ops.rs
+pub mod rust_rocksdb {
+    use super::*;
+    /// interface stand-in for rust_rocksdb::WriteBatch: an ordered log of operations (atomic application at `write`: trusted backend)
+    #[verifier::external_body]
+    pub struct WriteBatch { _p: u8 }
+    impl WriteBatch {
+        pub uninterp spec fn ops(&self) -> Seq<BOp>;
+        #[verifier::external_body]
+        pub fn put_cf<K: AsBytes, V: AsBytes>(&mut self, cf: &Handle, key: K, value: V)
+            ensures final(self).ops() == old(self).ops().push(BOp::Put { ty: cf.ty(), kind: cf.kind(), key: key.seq(), value: value.seq() })
+        { unimplemented!() }
+        #[verifier::external_body]
+        pub fn delete_cf<K: AsBytes>(&mut self, cf: &Handle, key: K)
+            ensures final(self).ops() == old(self).ops().push(BOp::Del { ty: cf.ty(), kind: cf.kind(), key: key.seq() })
+        { unimplemented!() }
+    }
+}
+
+impl Impl {
+    /// get_or_create_cf / get_or_create_cf_from_cf_identifier (DashMap cache + RocksDB handles: not under contract):
+    /// the handle names the column family of (type id, kind)
+    #[verifier::external_body]
+    pub fn get_or_create_cf<C: Identifiable>(&self, kind: ColumnKind) -> (r: Handle)
+        ensures r.ty() == C::STABLE_TYPE_ID, r.kind() == kind
+    { unimplemented!() }
+    #[verifier::external_body]
+    pub fn get_or_create_cf_from_cf_identifier(&self, stable_type_id: StableTypeID, kind: ColumnKind) -> (r: Handle)
+        ensures r.ty() == stable_type_id, r.kind() == kind
+    { unimplemented!() }
+}
+
+//@ struct crates/storage/src/kv_database/rocksdb.rs :: CfIdentifier
+//@ enum crates/storage/src/kv_database/rocksdb.rs :: Operation
+//@ struct crates/storage/src/kv_database/rocksdb.rs :: RocksDBWriteBatch
+//@ struct crates/storage/src/kv_database/rocksdb.rs :: RocksDBSerializationBuffer
+//@ const crates/storage/src/kv_database/rocksdb.rs :: PREFERRED_WRITE_BATCH_SIZE
+
+/// what a recorded operation becomes when the buffer is consumed
+pub open spec fn replayed(op: &Operation) -> BOp {
+    match op {
+        Operation::WideColumnPut { cf, key, value } => BOp::Put { ty: cf.stable_type_id, kind: cf.kind, key: key@, value: value@ },
+        Operation::WideColumnDelete { cf, key } => BOp::Del { ty: cf.stable_type_id, kind: cf.kind, key: key@ },
+        Operation::InsertMember { cf, key } => BOp::Put { ty: cf.stable_type_id, kind: cf.kind, key: key@, value: Seq::empty() },
+        Operation::DeleteMember { cf, key } => BOp::Del { ty: cf.stable_type_id, kind: cf.kind, key: key@ },
+    }
+}
+pub open spec fn replayed_all(ops: Seq<Operation>) -> Seq<BOp> { Seq::new(ops.len(), |i: int| replayed(&ops[i])) }
+/// bytes a recorded operation adds to the size estimate
+pub open spec fn op_cost(op: &Operation) -> nat {
+    match op {
+        Operation::WideColumnPut { cf, key, value } => key@.len() + value@.len(),
+        Operation::WideColumnDelete { cf, key } => key@.len(),
+        Operation::InsertMember { cf, key } => key@.len(),
+        Operation::DeleteMember { cf, key } => key@.len(),
+    }
+}
+pub open spec fn ops_cost(ops: Seq<Operation>) -> nat
+    decreases ops.len()
+{
+    if ops.len() == 0 { 0 } else { ops_cost(ops.drop_last()) + op_cost(&ops.last()) }
+}
+pub proof fn lemma_ops_cost_take(ops: Seq<Operation>, i: int)
+    requires 0 <= i < ops.len()
+    ensures ops_cost(ops.take(i + 1)) == ops_cost(ops.take(i)) + op_cost(&ops[i]), ops_cost(ops.take(i + 1)) <= ops_cost(ops)
+    decreases ops.len() - i
+{
+    assert(ops.take(i + 1).drop_last() =~= ops.take(i));
+    if i + 1 < ops.len() { lemma_ops_cost_take(ops, i + 1); } else { assert(ops.take(i + 1) =~= ops); }
+}
+
+//@ impl crates/storage/src/kv_database/rocksdb.rs :: impl WriteBatch for RocksDBWriteBatch
+//@ extra
+    type SerializationBuffer = RocksDBSerializationBuffer;
+    open spec fn est(&self) -> nat { self.estimated_size as nat }
+    open spec fn cost(buffer: &RocksDBSerializationBuffer) -> nat { ops_cost(buffer.operations@) }
+//@ member consume_serialization_buffer
+//@ sig
+        ensures final(self).batch.ops() =~= old(self).batch.ops() + replayed_all(buffer.operations@)
+//@ head
+        let ghost ops = buffer.operations@;
+        proof { assert(ops.take(0) =~= Seq::<Operation>::empty()); }
+//@ loop 0 iter __it
+//@ loop 0 inv
+            invariant
+                ops == buffer.operations@,
+                self.batch.ops() =~= old(self).batch.ops() + replayed_all(ops.take(__it.index@ as int)),
+                self.estimated_size as nat == old(self).estimated_size as nat + ops_cost(ops.take(__it.index@ as int)),
+                old(self).estimated_size as nat + ops_cost(ops) <= usize::MAX,
+//@ loop 0 head
+            proof {
+                let i = __it.index@ as int;
+                lemma_ops_cost_take(ops, i);
+                assert(replayed_all(ops.take(i + 1)) =~= replayed_all(ops.take(i)).push(replayed(&ops[i])));
+            }
+//@ loop 0 after
+        proof { assert(ops.take(ops.len() as int) =~= ops); }
+//@ member put
+//@ sig
+        ensures final(self).batch.ops() == old(self).batch.ops().push(BOp::Put {
+            ty: W::STABLE_TYPE_ID, kind: ColumnKind::WideColumn, key: wide_key::<W, C>(key), value: value.bytes() })
+//@ member delete
+//@ sig
+        ensures final(self).batch.ops() == old(self).batch.ops().push(BOp::Del {
+            ty: W::STABLE_TYPE_ID, kind: ColumnKind::WideColumn, key: wide_key::<W, C>(key) })
+//@ member insert_member
+//@ sig
+        ensures final(self).batch.ops() == old(self).batch.ops().push(BOp::Put {
+            ty: C::STABLE_TYPE_ID, kind: ColumnKind::KeyOfSet, key: member_key::<C>(key, value), value: Seq::empty() })
+//@ member delete_member
+//@ sig
+        ensures final(self).batch.ops() == old(self).batch.ops().push(BOp::Del {
+            ty: C::STABLE_TYPE_ID, kind: ColumnKind::KeyOfSet, key: member_key::<C>(key, value) })
+//@ member should_write_more
+//@ end
+
+//@ impl crates/storage/src/kv_database/rocksdb.rs :: impl SerializationBuffer for RocksDBSerializationBuffer
+//@ member put
+//@ sig
+        ensures replayed_all(final(self).operations@) =~= replayed_all(old(self).operations@).push(BOp::Put {
+            ty: W::STABLE_TYPE_ID, kind: ColumnKind::WideColumn, key: wide_key::<W, C>(key), value: value.bytes() })
+//@ member delete
+//@ sig
+        ensures replayed_all(final(self).operations@) =~= replayed_all(old(self).operations@).push(BOp::Del {
+            ty: W::STABLE_TYPE_ID, kind: ColumnKind::WideColumn, key: wide_key::<W, C>(key) })
+//@ member insert_member
+//@ sig
+        ensures replayed_all(final(self).operations@) =~= replayed_all(old(self).operations@).push(BOp::Put {
+            ty: C::STABLE_TYPE_ID, kind: ColumnKind::KeyOfSet, key: member_key::<C>(key, value), value: Seq::empty() })
+//@ member delete_member
+//@ sig
+        ensures replayed_all(final(self).operations@) =~= replayed_all(old(self).operations@).push(BOp::Del {
+            ty: C::STABLE_TYPE_ID, kind: ColumnKind::KeyOfSet, key: member_key::<C>(key, value) })
+//@ end
+
 
 } // verus!
 fn main() {}
